@@ -20,6 +20,9 @@ THEOREMS = [
     "Typedpy.C17.fixed_versionless_example", "Typedpy.C17.fixed_clobber_example",
     "Typedpy.C17.fixed_compose_versionless_example", "Typedpy.C17.fixed_compose_clobber_example",
     "Typedpy.C17.fixed_deser_no_attribute_example", "Typedpy.C17.beq_sound", "Typedpy.C17.laws_example",
+    "Typedpy.C17.step_contract_holds", "Typedpy.C17.step_contract_top_holds", "Typedpy.C17.convert_steps_contract",
+    "Typedpy.C17.step_contract_sensitive_example", "Typedpy.C17.nonpositive_version_accepted_example",
+    "Typedpy.C17.nonpositive_rejected_refuted", "Typedpy.C17.convert_nonpositive_characterised",
 ]
 RULE = ("histories of 0..5 (thorough 0..8) mappings over top-level keys a..e (+ rarely `version`) with Constant, Deleted, "
         "moves (plain and dotted paths, degenerate paths), nested `._mapper` entries (depth <= 2) over sub-documents and "
@@ -83,6 +86,23 @@ def judge(case, impl, model):
     # known-finding regions with their own keys; since the fix they are judged like every other case
     region = None
     history = _short(case["ms"], 400)
+
+    if model.get("wfMappings") is False:
+        msg = msg or "harness: a generated mapping is not a Python dict (duplicate key) — the step-contract theorems do not cover it"
+
+    # ---- start versions below 1 (the documentation has versions start at 1; `version` is a PositiveInt field):
+    # convert_dict slices the history with a negative index instead of rejecting the document
+    if int_version and ver < 1:
+        if "ok" in impl["full"]:
+            fails.append(("invalid-version-accepted:convert_dict-nonpositive-start-version",
+                          f"convert_dict on a document with version {ver} (versions start at 1) applied "
+                          f"versions_mapping[{ver - 1}:] and returned {_short(impl['full'])}: doc={_short(doc)} history={history}"))
+        d_old = impl.get("deser_old")
+        if d_old is not None and "ok" in d_old:
+            fails.append(("invalid-version-accepted:deserialize-nonpositive-start-version",
+                          f"Deserializer(V).deserialize of a document with version {ver} returned an instance "
+                          f"{_short(d_old)} (version: PositiveInt is never validated, Versioned.__init__ overwrites it): "
+                          f"doc={_short(doc)} history={history}"))
 
     # ---- inputs intact (applies to every case, whatever the start version)
     for what, site, extra in impl["mutated"]:
